@@ -1,6 +1,7 @@
 package c19
 
 import (
+	"testing/iotest"
 	"bytes"
 	"crypto/cipher"
 	"errors"
@@ -194,7 +195,7 @@ func randomJobs(c *vf.Check) []func() {
 	// randstream
 	jobs = append(jobs, func() {
 		pk := "C19/randstream"
-		kinds := []string{"good", "short", "fail"}
+		kinds := []string{"good", "short", "fail", "half", "onebyte", "dataerr"} // the last three deliver the same bytes as "good", a few at a time / together with io.EOF
 		var rec func(set []string)
 		rec = func(set []string) {
 			if len(set) > 0 {
@@ -215,6 +216,12 @@ func randomJobs(c *vf.Check) []func() {
 								rs = append(rs, bytes.NewReader(data[:7]))
 							case "fail":
 								rs = append(rs, failReader{})
+							case "half":
+								rs = append(rs, iotest.HalfReader(bytes.NewReader(data)))
+							case "onebyte":
+								rs = append(rs, iotest.OneByteReader(bytes.NewReader(data)))
+							case "dataerr":
+								rs = append(rs, iotest.DataErrReader(bytes.NewReader(data[:32])))
 							}
 						}
 						return rs
@@ -231,9 +238,11 @@ func randomJobs(c *vf.Check) []func() {
 						return out, false
 					}
 					anyGood := false
-					for _, k := range set {
-						if k == "good" {
+					plain := append([]string{}, set...)
+					for i, k := range set {
+						if k == "good" || k == "half" || k == "onebyte" || k == "dataerr" {
 							anyGood = true
+							plain[i] = "good"
 						}
 					}
 					o1, p1 := draw(-1)
@@ -249,6 +258,17 @@ func randomJobs(c *vf.Check) []func() {
 					}
 					if p1 {
 						return
+					}
+					// a function of the bytes consumed: the same bytes delivered whole give the same output
+					{
+						saved := set
+						set = plain
+						o4, p4 := draw(-1)
+						set = saved
+						if p4 || !bytes.Equal(o4, o1) {
+							x.Failf(pk+"/function-of-bytes", "%s: the output differs from the one obtained when the same bytes are delivered by plain readers", id)
+							return
+						}
 					}
 					for j, k := range set {
 						if k == "fail" {
@@ -271,6 +291,58 @@ func randomJobs(c *vf.Check) []func() {
 			}
 		}
 		rec(nil)
+		// one stream object over three calls; reader 1 is a pool that is empty during the second call and refilled
+		// before the third: the third output depends on the refill, and the stream keeps working on the pool alone
+		for variant := 0; variant < 2; variant++ {
+			variant := variant
+			id := fmt.Sprintf("random.New(good, pool): three calls, pool empty in the second and refilled before the third (variant %d)", variant)
+			c.Case(id, pk, func(x *vf.Ctx) {
+				run := func(flip bool) (outs [][]byte, panicked bool) {
+					defer func() {
+						if r := recover(); r != nil {
+							panicked = true
+						}
+					}()
+					goodLen := 96
+					if variant == 1 {
+						goodLen = 64 // the steady reader runs dry before the third call: only the pool delivers then
+					}
+					good := bytes.NewReader(alpha.Bytes("c19-pool-good", goodLen))
+					pool := &bytes.Buffer{}
+					pool.Write(alpha.Bytes("c19-pool-1", 32))
+					s := random.New(good, pool)
+					for call := 0; call < 3; call++ {
+						if call == 2 {
+							refill := alpha.Bytes("c19-pool-refill", 32)
+							if flip {
+								refill[5] ^= 0x10
+							}
+							pool.Write(refill)
+						}
+						o := make([]byte, 40)
+						s.XORKeyStream(o, o)
+						outs = append(outs, o)
+					}
+					return outs, false
+				}
+				a, pa := run(false)
+				b, pb := run(true)
+				c.Eval(2)
+				if pa || pb {
+					x.Failf(pk+"/works", "%s: panics although a reader delivers in every call", id)
+					return
+				}
+				if !bytes.Equal(a[0], b[0]) || !bytes.Equal(a[1], b[1]) {
+					x.Failf(pk+"/determinism", "%s: the first two outputs differ between two runs with the same bytes", id)
+					return
+				}
+				if bytes.Equal(a[2], b[2]) {
+					x.Failf(pk+"/depends-on-every-reader", "%s: the third output does not depend on the bytes the pool delivers in the third call", id)
+				}
+			})
+			c.Count("transitions", 3)
+			c.Nontrivial(id)
+		}
 	})
 	return jobs
 }
